@@ -271,6 +271,42 @@ func renderWithout(v interface{}, s interface{}, orig string) string {
 	return strings.Replace(r, render(s), orig, 1)
 }
 
+// setAt replaces, directly in the document (not through an accessor), the value at a location found by findSentinel.
+func setAt(doc interface{}, loc string, v interface{}) bool {
+	parts := strings.Split(strings.TrimPrefix(loc, "/"), "/")
+	cur := doc
+	for i, p := range parts {
+		last := i == len(parts)-1
+		switch {
+		case strings.HasPrefix(p, "i"):
+			idx, _ := strconv.Atoi(p[1:])
+			arr, ok := cur.([]interface{})
+			if !ok || idx < 0 || idx >= len(arr) {
+				return false
+			}
+			if last {
+				arr[idx] = v
+				return true
+			}
+			cur = arr[idx]
+		case strings.HasPrefix(p, "k"):
+			key := unhex(p[1:])
+			m, ok := cur.(map[string]interface{})
+			if !ok {
+				return false
+			}
+			if last {
+				m[key] = v
+				return true
+			}
+			cur = m[key]
+		default:
+			return false
+		}
+	}
+	return false
+}
+
 func locations(c *caseT, docIdx int, n int, rec *recorder) string {
 	out := make([]string, n)
 	for i := 0; i < n; i++ {
@@ -285,6 +321,10 @@ func locations(c *caseT, docIdx int, n int, rec *recorder) string {
 		if len(res) != n {
 			return "unstable-result-count"
 		}
+		// the accessors belong to the caller: a later call of the same parsed function on another document (and an
+		// unrelated retrieval) must not retarget them
+		evalObs(f, buildDoc(c.Docs[docIdx]))
+		jsonpath.Retrieve("$..*", []interface{}{map[string]interface{}{"x": []interface{}{"p", "q"}}, "y"})
 		acc, ok := res[i].(jsonpath.Accessor)
 		if !ok {
 			out[i] = "v"
@@ -317,6 +357,16 @@ func locations(c *caseT, docIdx int, n int, rec *recorder) string {
 			}
 			if got != interface{}(sent) {
 				loc += "!getNotLive"
+			}
+			// Get reflects a later in-place update of that map entry / array element made directly by the caller,
+			// whatever kind of value sits there (a container as well as a leaf)
+			for _, direct := range []interface{}{&sentinelT{1000 + i}, map[string]interface{}{"direct": 1.0}, []interface{}{"direct"}} {
+				if found[0] != "" && setAt(doc, found[0], direct) {
+					if g := acc.Get(); render(g) != render(direct) {
+						loc += "!getStaleAfterDirectUpdate"
+						break
+					}
+				}
 			}
 			out[i] = loc
 		}
